@@ -47,6 +47,10 @@ def run(tier, seed):
         cut = rng.randrange(1, len(inst))
         recipes.append({"fn": "typing", "cls": cspec, "seq": inst[:cut]})
         recipes.append({"fn": "typing", "cls": cspec, "seq": inst})
+        # growth: the same instance declared linear, whole and with the structure running through the origin
+        full = gen.instantiate(st, rng, runlen=3) + gen.rnd(4, rng)
+        recipes.append({"fn": "typing", "cls": cspec, "seq": full, "linear": True})
+        recipes.append({"fn": "typing", "cls": cspec, "seq": gen.rotate(full, 5), "linear": True})
     traces = [exec_typing(r) for r in recipes]
     for r, t in zip(recipes, traces):
         run.distinct.add((t[0]["cls"]["name"], r["seq"]))
